@@ -13,7 +13,11 @@ Streams
                     total <= max
   limits-request    Request.form / Request.files through a WSGI environ with / without CONTENT_LENGTH and
                     wsgi.input_terminated, all three limits in {None, small, exact, large}; oracle only
-                    (declared-length decisions belong to C09's model)
+  request-histories multi-step access histories on one Request object (get_data with every flag combination,
+                    .data, .stream.read(), .form, .files, .values, get_json, in any order) under every limit
+                    combination vs Model/FormLimitsRequest.lean; oracle on the Request: pure guard access by
+                    access, never more than max_content_length bytes taken, declared length above the maximum
+                    answers 413 everywhere, the first form access that sees the whole body enforces the limits
 """
 from __future__ import annotations
 
@@ -26,12 +30,13 @@ from harness.c01 import (
     canon_form,
     chunks_of,
     decode_real,
+    ev_headers,
     form_real,
     parts_of,
     rand_body,
     render,
 )
-from vlib.core import Check, Stream, hs, hx, line, opt, out_list, unhx
+from vlib.core import Check, Stream, b01, hs, hx, line, opt, out_list, unhx
 
 R413 = "RequestEntityTooLarge"
 
@@ -91,6 +96,8 @@ def rand_cuts(rng, L):
     if r < 0.5:
         step = rng.choice([2, 3, 7, 16, 64])
         return list(range(step, L, step))
+    if r < 0.65:
+        return sorted(rng.randrange(0, L + 1) for _ in range(rng.choice([1, 2, 3, 6])))  # empty chunks allowed
     return sorted(set(rng.randrange(1, L) for _ in range(rng.choice([1, 2, 3, 6]))))
 
 
@@ -529,14 +536,24 @@ class RequestLimits(Stream):
         return None
 
     def finding_key(self, case, what):
-        # F10b: urlencoded, server-terminated, no (or an understated) declared length,
-        # max_form_memory_size=None, body longer than max_content_length:
-        # LimitedStream(is_max=True).readall() stops exactly at the limit without raising. Taking more
-        # than max_content_length bytes from the input is never part of that finding.
+        # F10b is exactly this: urlencoded body, server-terminated stream, max_form_memory_size=None (so
+        # _parse_urlencoded calls stream.read()), no or an understated declared length, body longer than
+        # max_content_length, and LimitedStream(is_max=True).readall() hands out the first
+        # max_content_length bytes without raising - the request is answered with the form of the body
+        # truncated to max_content_length bytes, and exactly that many bytes were taken from the input.
+        # Any other wrong outcome on such a case (more bytes taken, a different form, another exception)
+        # is not that finding.
         if what.startswith("took "):
             return None
         dcl = self.declared(case)
-        if case["kind"] == "url" and case["term"] and case["mm"] is None and case["mcl"] is not None and len(unhx(case["body"])) > case["mcl"] and (dcl is None or dcl <= case["mcl"]):
+        body = unhx(case["body"])
+        mcl = case["mcl"]
+        if not (case["kind"] == "url" and case["term"] and case["mm"] is None and mcl is not None and len(body) > mcl and (dcl is None or dcl <= mcl)):
+            return None
+        got, taken = self.run(case)
+        truncated = {**case, "body": hx(body[:mcl]), "cl": False}
+        want, _ = self.run(truncated, limits=False)
+        if got == want and taken == mcl and not got.startswith("EXC"):
             return "F10b"
         return None
 
@@ -551,14 +568,365 @@ class RequestLimits(Stream):
         return (self.declared(case) is not None or case["term"]) and not (case["mcl"] is None and case["mm"] is None and case["mp"] is None)
 
 
+# --------------------------------------------------------------------------
+# access histories on one Request object
+
+
+HIST_OPS = ["g00", "g01", "g10", "g11", "d", "s", "f", "u", "v", "j0", "j1"]
+FORM_OPS = {"f", "u", "v", "g01", "g11", "d"}  # accesses that run _load_form_data
+READALL_OPS = {"g00", "g01", "g10", "g11", "d", "s", "j0", "j1"}  # accesses that may call stream.read()
+CACHING_OPS = {"g10", "j1"}  # get_data(cache=True) without form parsing: the body stays available
+
+
+class OrderedItems(list):
+    """parameter_storage_class that keeps the parser's item order"""
+
+    def __init__(self, items=()):
+        super().__init__(items)
+
+
+def group_by_key(items):
+    """MultiDict.items(multi=True) order: keys by first occurrence, values per key in order"""
+    keys, by = [], {}
+    for k, v in items:
+        if k not in by:
+            keys.append(k)
+            by[k] = []
+        by[k].append(v)
+    return [(k, v) for k in keys for v in by[k]]
+
+
+def hist_body(rng):
+    """(mime, boundary, body)"""
+    r = rng.random()
+    if r < 0.5:
+        bd, body = sized_body(rng)
+        if rng.random() < 0.25:
+            # one field / header block / undelimited run sized around small limits
+            n = rng.choice([5, 19, 20, 21, 50, 51, 120, 300])
+            k = rng.choice(["field", "header", "nodelim", "file"])
+            bd = b"bound"
+            if k == "field":
+                body = render(bd, b"\r\n", [("a", None, [], b"v" * n, False)])
+            elif k == "header":
+                body = render(bd, b"\r\n", [("a", None, [b"X-Big: " + b"h" * n], b"v", False)])
+            elif k == "file":
+                body = render(bd, b"\r\n", [("a", None, [], b"v", False), ("up", "f.bin", [], b"d" * n, False)])
+            else:
+                body = b"x" * n
+        return "mp", bd, body
+    if r < 0.8:
+        body = rand_urlencoded(rng)
+        if rng.random() < 0.3:
+            body = b"a=" + b"x" * rng.choice([3, 18, 19, 48, 49, 200])
+        return "url", b"", body
+    if r < 0.93:
+        return "other", b"", rng.choice([b"", b"{}", b'{"a": [1, 2, 3]}', b"not json \xff", b"x" * rng.choice([1, 20, 21, 100])])
+    return "absent", b"", rng.choice([b"", b"a=b", b"x" * 30])
+
+
+def rand_history(rng):
+    r = rng.random()
+    if r < 0.3:
+        # the two-step shapes: read the body one way, then ask for the form (or the other way round)
+        first = rng.choice(["g10", "g10", "g00", "g11", "g01", "d", "s", "j1", "j0", "f", "u"])
+        second = rng.choice(["f", "f", "u", "v", "g10", "g11", "d", "s"])
+        return [first, second]
+    if r < 0.4:
+        return ["g10"] * rng.choice([1, 2, 3]) + [rng.choice(["f", "u", "v", "d", "g11"])]
+    return [rng.choice(HIST_OPS) for _ in range(rng.choice([1, 2, 2, 3, 3, 4, 6]))]
+
+
+class RequestHistories(Stream):
+    """multi-step access histories on one Request object under every limit combination.
+    Model: Model/FormLimitsRequest.lean (`run`). Oracle (on the Request, independent of the model):
+    limits are pure guards access by access (up to the first 413, the history under limits == the
+    history without limits), never more than max_content_length bytes are taken from wsgi.input, a
+    declared length above max_content_length makes every body access answer 413 without reading, and
+    the first form access that still sees the whole body answers 413 when the body certainly exceeds
+    max_form_memory_size / max_form_parts — whatever was called before it."""
+
+    name = "request-histories"
+
+    def __init__(self):
+        f50 = render(b"bound", b"\r\n", [("a", None, [], b"v" * 50, False)])
+        hdr = render(b"bound", b"\r\n", [("a", None, [b"X-Big: " + b"h" * 200], b"v", False)])
+        three = render(b"bound", b"\r\n", [("a", None, [], b"1", False), ("b", None, [], b"2", False), ("c", "f", [], b"3", False)])
+
+        def mk(mime, bd, body, ops, mcl=None, mm=None, mp=None, dcl="len", term=False):
+            return {"mime": mime, "b": hx(bd), "body": hx(body), "ops": ops, "mcl": mcl, "mm": mm, "mp": mp,
+                    "dcl": len(body) if dcl == "len" else dcl, "term": term}
+
+        self.corpus = [
+            # get_data() (webhook signature check) before the form is asked for: the limits still apply
+            mk("mp", b"bound", f50, ["g10", "f"], mm=20),
+            mk("mp", b"bound", f50, ["f"], mm=20),
+            mk("url", b"", b"a=" + b"x" * 48, ["g10", "f"], mm=20),
+            mk("mp", b"bound", hdr, ["g10", "u"], mm=100),
+            mk("mp", b"bound", b"x" * 300, ["g10", "f"], mm=20),
+            mk("mp", b"bound", three, ["g10", "g10", "v"], mp=2),
+            mk("mp", b"bound", three, ["j1", "f", "u"], mm=10**6, mp=3),
+            mk("mp", b"bound", f50, ["g10", "f", "u", "d", "s"], mm=10**6, mp=5),
+            # what consumes the stream and what does not
+            mk("mp", b"bound", f50, ["g00", "f"], mm=20),
+            mk("mp", b"bound", f50, ["s", "f", "g10"], mm=20),
+            mk("mp", b"bound", f50, ["d", "f", "g10", "s"], mm=100),
+            mk("url", b"", b"a=b&c=d", ["g11", "f", "g10"], mm=100),
+            mk("other", b"", b'{"a": 1}', ["j1", "d", "f", "s", "j1", "j0"]),
+            mk("other", b"", b'{"a": 1}', ["f", "g10", "g10"]),
+            mk("absent", b"", b"a=b", ["f", "d", "s"]),
+            # declared length above max_content_length: every access answers 413, nothing is read
+            mk("mp", b"bound", f50, ["g10", "f", "s", "d", "j1"], mcl=10),
+            # server-terminated streams with and without a maximum
+            mk("mp", b"bound", f50, ["g10", "f"], mcl=len(f50) + 1, mm=20, dcl=None, term=True),
+            mk("mp", b"bound", f50, ["f", "g10"], mcl=len(f50), dcl=None, term=True),
+            mk("url", b"", b"a=" + b"x" * 48, ["g10", "f"], mcl=50, mm=None, dcl=None, term=True),
+            mk("url", b"", b"a=b", ["f", "f", "g10"], dcl=None, term=False),
+            # a 413 on the first access does not stick: the second access parses what is left
+            mk("mp", b"bound", f50, ["f", "f", "u"], mm=20),
+            mk("mp", b"bound", three, ["u", "f"], mp=2),
+            # more than one 64 KiB read
+            mk("mp", b"bound", render(b"bound", b"\r\n", [("a", None, [], b"v" * 70000, False), ("up", "f", [], b"d" * 70000, False)]), ["g10", "f", "u"], mm=80000, mp=2),
+            mk("mp", b"bound", render(b"bound", b"\r\n", [("a", None, [], b"v" * 70000, False)]), ["f"], mm=69999),
+        ]
+
+    def cases(self, rng, tier):
+        for _ in range(1600 if tier == "quick" else 30000):
+            mime, bd, body = hist_body(rng)
+            L = len(body)
+            ops = rand_history(rng)
+            r = rng.random()
+            dcl = L if r < 0.6 else None if r < 0.85 else max(0, L + rng.choice([-3, -1, 2, 7]))
+            term = rng.random() < 0.4
+            yield {
+                "mime": mime,
+                "b": hx(bd),
+                "body": hx(body),
+                "ops": ops,
+                "mcl": pick_limit(rng, [L, L, L + 1]) if rng.random() < 0.5 else None,
+                "mm": pick_limit(rng, [L, 20, 50, 100]),
+                "mp": pick_limit(rng, [body.count(b"name=")]),
+                "dcl": dcl,
+                "term": term,
+            }
+
+    @staticmethod
+    def run(case, limits=True, body=None):
+        from werkzeug.wrappers import Request
+
+        body = unhx(case["body"]) if body is None else body
+
+        class R(Request):
+            max_content_length = case["mcl"] if limits else None
+            max_form_memory_size = case["mm"] if limits else None
+            max_form_parts = case["mp"] if limits else None
+            parameter_storage_class = OrderedItems
+
+        stream = CountingBytesIO(body)
+        env = {
+            "REQUEST_METHOD": "POST",
+            "wsgi.input": stream,
+            "wsgi.url_scheme": "http",
+            "SERVER_NAME": "localhost",
+            "SERVER_PORT": "80",
+            "PATH_INFO": "/",
+            "QUERY_STRING": "",
+        }
+        ct = {"mp": 'multipart/form-data; boundary="' + unhx(case["b"]).decode("latin1") + '"', "url": "application/x-www-form-urlencoded", "other": "application/json", "absent": None}[case["mime"]]
+        if ct is not None:
+            env["CONTENT_TYPE"] = ct
+        if case["dcl"] is not None:
+            env["CONTENT_LENGTH"] = str(case["dcl"])
+        if case["term"]:
+            env["wsgi.input_terminated"] = True
+        req = R(env)
+        outs = []
+
+        def fields(items):
+            return "F:" + out_list(opt(hs, k) + "=" + hs(v) for k, v in items)
+
+        def files(items):
+            res = []
+            for k, fs in items:
+                fs.stream.seek(0)
+                res.append(opt(hs, k) + ":" + hs(fs.filename) + ":" + ev_headers(fs.headers) + ":" + hx(fs.stream.read()))
+            return "U:" + out_list(res)
+
+        for op in case["ops"]:
+            try:
+                if op[0] == "g":
+                    o = "B:" + hx(req.get_data(cache=op[1] == "1", parse_form_data=op[2] == "1"))
+                elif op == "d":
+                    o = "B:" + hx(req.data)
+                elif op == "s":
+                    o = "B:" + hx(req.stream.read())
+                elif op == "f":
+                    o = fields(req.form)
+                elif op == "u":
+                    o = files(req.files)
+                elif op == "v":
+                    o = fields(req.values.items(multi=True))
+                else:
+                    req.get_json(force=True, silent=True, cache=op[1] == "1")
+                    o = "J"
+            except Exception as e:  # noqa: BLE001 - the exception class is the observation
+                o = "EXC:" + type(e).__name__
+            outs.append(o)
+        return outs, stream.taken
+
+    def real(self, case):
+        outs, taken = self.run(case)
+        return ";".join(outs) + "#" + str(taken)
+
+    def model_line(self, case):
+        return line("req.history", opt(str, case["mcl"]), opt(str, case["mm"]), opt(str, case["mp"]), case["mime"], case["b"],
+                    opt(str, case["dcl"]), b01(case["term"]), out_list(case["ops"]), case["body"])
+
+    def canon_model(self, case, out):
+        # `.values` goes through MultiDict: items grouped by key
+        obs, _, taken = out.rpartition("#")
+        obs = obs.split(";")
+        if len(obs) != len(case["ops"]):
+            return out
+        for i, op in enumerate(case["ops"]):
+            if op == "v" and obs[i].startswith("F:") and obs[i] != "F:[]":
+                items = [tuple(x.split("=")) for x in obs[i][2:].split(",")]
+                obs[i] = "F:" + out_list(k + "=" + v for k, v in group_by_key(items))
+        return ";".join(obs) + "#" + taken
+
+    @staticmethod
+    def sees_whole_body(case):
+        """the body the form parser can see is the whole body (truthful or absent declared length on a
+        readable stream, and strictly below a streaming maximum)"""
+        L = len(unhx(case["body"]))
+        if case["term"]:
+            if case["mcl"] is not None and L >= case["mcl"]:
+                return False
+            return case["dcl"] is None or case["dcl"] == L or case["mcl"] is None and case["dcl"] <= L
+        return case["dcl"] == L
+
+    @staticmethod
+    def first_form_access(ops):
+        """index of the first access that runs the form parser while the whole body is still available:
+        only get_data(cache=True) / get_json(cache=True) came before it (get_data(parse_form_data=True)
+        and .data parse the form only when nothing is cached yet, i.e. as the first access)"""
+        for i, op in enumerate(ops):
+            if op in ("f", "u", "v"):
+                return i
+            if op in ("g01", "g11", "d"):
+                if i == 0:
+                    return 0
+                continue  # answered from _cached_data, no parsing
+            if op not in CACHING_OPS:
+                return None
+        return None
+
+    def certain_413(self, case):
+        """why parsing the whole body must answer 413, or None"""
+        body, mm, mp = unhx(case["body"]), case["mm"], case["mp"]
+        L = len(body)
+        if case["mime"] == "url":
+            if mm is not None and L > mm:
+                return f"urlencoded body of {L} bytes > max_form_memory_size={mm}"
+            return None
+        if case["mime"] != "mp" or not case["b"] or case["b"] == "-":
+            return None
+        bd = unhx(case["b"])
+        if mm is not None and b"--" + bd not in body and L > mm:
+            return f"{L} bytes of undelimited multipart input > max_form_memory_size={mm}"
+        ev, err, _ = decode_real(bd, [body])
+        if err is None:
+            parts = parts_of(ev)
+            if mp is not None and len(parts) > mp:
+                return f"{len(parts)} parts > max_form_parts={mp}"
+            if mm is not None and any(e.startswith("F:") and len(p) > mm for e, p in parts):
+                return f"non-file field larger than max_form_memory_size={mm}"
+        return None
+
+    def oracle(self, case, real_out):
+        obs, _, taken = real_out.rpartition("#")
+        if not taken.isdigit():
+            return None if real_out.startswith("EXC") is False else f"history runner raised {real_out}"
+        obs, taken = obs.split(";"), int(taken)
+        ops = case["ops"]
+        L = len(unhx(case["body"]))
+        mcl, dcl = case["mcl"], case["dcl"]
+        e413 = "EXC:" + R413
+        if mcl is not None and taken > mcl:
+            return f"took {taken} bytes from wsgi.input with max_content_length={mcl} (declared {dcl}, terminated={case['term']})"
+        if mcl is not None and dcl is not None and dcl > mcl:
+            bad = [op for op, o in zip(ops, obs) if o != e413]
+            if bad or taken:
+                return f"declared length {dcl} > max_content_length={mcl} but access {bad[:1]} was answered {[o for o in obs if o != e413][:1]} ({taken} bytes read)"
+            return None
+        free, _ = self.run(case, limits=False)
+        for i, (a, b) in enumerate(zip(obs, free)):
+            if a == e413:
+                break
+            if a != b:
+                return f"access {i} ({ops[i]}) under limits differs from the same history without limits: {a[:60]} vs {b[:60]}"
+        # the first form access that still sees the whole body
+        idx = self.first_form_access(ops)
+        if idx is not None and not any(o.startswith("EXC") for o in obs[:idx]) and self.sees_whole_body(case):
+            why = self.certain_413(case)
+            if why is not None and obs[idx] != e413:
+                return f"{why}, history {ops[: idx + 1]}: access {ops[idx]} was answered {obs[idx][:60]}"
+        return None
+
+    def finding_key(self, case, what):
+        # F09b / F10b: on a server-terminated stream LimitedStream(is_max=True).read() hands out the first
+        # max_content_length bytes of a longer body without raising. The finding is exactly: an access
+        # that goes through stream.read() (get_data, .data, .stream.read(), get_json, the urlencoded
+        # parser without max_form_memory_size) or comes after one sees the body truncated to
+        # max_content_length bytes - i.e. up to its first 413 the history under limits equals the history
+        # *without limits over the truncated body*. Any other outcome on such a case (a different value,
+        # another exception, more bytes read) is a new violation.
+        if "differs from the same history without limits" not in what:
+            return None
+        body, mcl, dcl = unhx(case["body"]), case["mcl"], case["dcl"]
+        if not (case["term"] and mcl is not None and len(body) > mcl and (dcl is None or dcl <= mcl)):
+            return None
+        i = int(what.split()[1])
+        readall = set(READALL_OPS)
+        if case["mime"] == "url" and case["mm"] is None:
+            readall |= {"f", "u", "v"}
+        if not any(op in readall for op in case["ops"][: i + 1]):
+            return None
+        got, taken = self.run(case)
+        want, _ = self.run(case, limits=False, body=body[:mcl])
+        k = next((j for j, o in enumerate(got) if o == "EXC:" + R413), len(got))
+        if i < k and got[:k] == want[:k] and taken <= mcl:
+            return "F10b"
+        return None
+
+    def mutate(self, case, rng):
+        ops = case["ops"]
+        for i in range(len(ops)):
+            if len(ops) > 1:
+                yield {**case, "ops": ops[:i] + ops[i + 1 :]}
+        for k in ("mcl", "mm", "mp"):
+            if case[k] is not None:
+                yield {**case, k: None}
+
+    def bucket(self, case, real_out):
+        obs = real_out.rpartition("#")[0].split(";")
+        n413 = sum(1 for o in obs if o == "EXC:" + R413)
+        return case["mime"] + (" term" if case["term"] else "") + (" 413" if n413 else " ok") + f" ops={min(len(case['ops']), 4)}"
+
+    def nontrivial(self, case, real_out):
+        return len(case["ops"]) >= 2 and not (case["mcl"] is None and case["mm"] is None and case["mp"] is None)
+
+
 CHECK = Check(
     prop="C10",
-    gen=["Multipart", "Urlencode"],
+    gen=["Multipart", "Urlencode", "FormGlue"],
     modules=["WzVerif.Props.C10"],
-    streams=[DecoderLimits(), ParserLimitsChecked(), UrlRead(), RequestLimits()],
+    streams=[DecoderLimits(), ParserLimitsChecked(), UrlRead(), RequestLimits(), RequestHistories()],
     assumptions=[
         "the decoder / parser model is the one of C01 (Model/Multipart.lean) with the limits as parameters; its correspondence is checked by the streams of C01 and by limits-decoder / limits-parser here",
-        "declared-length decisions (Content-Length vs max_content_length, LimitedStream(is_max=True)) are not modelled here (C09's model); they are covered by the oracle of stream limits-request only",
+        "request level (Model/FormLimitsRequest.lean): wsgi.input is a BytesIO-like stream (every read returns what it is asked for while bytes remain; short reads are the subject of C01/C09); LimitedStream appears through the closed form of read()/readall() over such an input (what it can still deliver, what the read after the last byte does) - LimitedStream itself is C09's model; this closed form is validated against the code by stream request-histories",
+        "get_json is modelled only by its effect on the body (get_data(cache) and the _cached_json short cut); as_text decoding, FileStorage / SpooledTemporaryFile and parameter_storage_class conversions are outside the model",
+        "the statements of the request-level glue and the limit plumbing are pinned to the source by AST (Gen/FormGlue); a harmless refactor of those functions breaks the obligation and is then decided by the failing-input search",
         "the input stream is modelled as a raw stream that returns at least one byte per read until it is exhausted (short reads allowed)",
         "SpooledTemporaryFile contents of file parts are outside max_form_memory_size by design (the property bounds non-file fields and undelimited input)",
     ],
@@ -568,8 +936,8 @@ CHECK = Check(
 )
 
 MANIFEST = {
-    "level_text": "Machine-checked Lean 4 theorems about the executable decoder/parser model: the buffer bound is an inductive invariant of receive_data/next_event over every operation sequence, the part counter bounds the number of part events, the accumulated size of a non-file field is bounded, decoding/parsing under limits that succeeds equals decoding/parsing without limits for every chunk sequence (simulation), and the repaired urlencoded read never holds more than max+1 bytes and accepts iff the body fits; model tied to the code by differential streams with len(decoder.buffer) observed after every receive.",
-    "level_note": "Trusted: Lean kernel; extract.py; harness; CPython io. Declared-length / max_content_length decisions are covered by the oracle only (C09 owns the model).",
+    "level_text": "Machine-checked Lean 4 theorems about the executable decoder/parser model: the buffer bound is an inductive invariant of receive_data/next_event over every operation sequence, the part counter bounds the number of part events, the accumulated size of a non-file field is bounded, decoding/parsing under limits that succeeds equals decoding/parsing without limits for every chunk sequence (simulation), and the repaired urlencoded read never holds more than max+1 bytes and accepts iff the body fits. Request level (Request._load_form_data / get_data / stream / make_form_data_parser, FormDataParser.parse dispatch): for every access history on one Request object every parser run gets the request's limits, no history takes more than max_content_length bytes from wsgi.input, a declared length above the maximum makes every access answer 413 without reading, get_data() before the form access changes nothing, and the first form access equals the parser models with the request's limits; the limit plumbing and the glue statements are regenerated from the source by AST on every run. Models tied to the code by differential streams (len(decoder.buffer) observed after every receive; access histories on real Request objects).",
+    "level_note": "Trusted: Lean kernel; extract.py; harness; CPython io. LimitedStream enters the request-level model through a closed form validated by stream request-histories (its own model and theorems are C09's). Known finding F10b (read() stops at the streaming maximum without raising) is the explicit exclusion.",
     "technique": "Lean 4 proof (inductive invariants, simulation) + model/code correspondence",
     "design_ref": "DESIGN.md section 4, C10",
 }
